@@ -609,12 +609,17 @@ func mergeRunOne(b *BatchResult, prop string, seed, run uint64, nRandom int) {
 			if x.prop != prop {
 				continue
 			}
-			wj, _ := json.Marshal(w)
+			var wj []byte
+			desc := ""
+			if b.keeping() {
+				wj, _ = json.Marshal(w)
+				desc = w.describe()
+			}
 			cfg := s.cfg
 			cfg.Tape = st.TapeUsed
 			cfg.Generative = false
 			v := Violation{Property: prop, Engine: "mergesim", Class: x.class, Detail: x.detail, Seed: seed, Run: run,
-				Workload: wj, Sched: cfg, SchedName: s.name, Fingerprint: fpString(st.Fingerprint), Describe: w.describe()}
+				Workload: wj, Sched: cfg, SchedName: s.name, Fingerprint: fpString(st.Fingerprint), Describe: desc}
 			b.violation(v)
 		}
 	}
